@@ -59,7 +59,7 @@ fn gen_part(allow_colon: bool) -> String {
     match t::weighted(&[5, 1, 2, 1]) {
         0 => t::string(b"abcXYZ019", 1, 8),
         1 => String::new(),
-        2 => format!("{}{}", t::string(b"ab", 0, 3), t::pick(&["é", "日本", "ü€", " sp ace", "%41", "\"q\""])),
+        2 => format!("{}{}", t::string(b"ab", 0, 3), t::pick(&["é", "日本", "ü€", " sp ace", "%41", "\"q\"", "ñ", "café", "Ünï"])),
         _ => {
             if allow_colon {
                 format!("{}:{}", t::string(b"ab", 0, 3), t::string(b"cd:", 0, 4))
@@ -144,6 +144,12 @@ pub fn generate(_cfg: &RunCfg, _out: &mut Outcome) -> Scenario {
                     _ => format!("{bare}{}", "=".repeat(t::draw(6) as usize)),
                 };
                 ("padding-variant", Some(format!("Basic {v}").into_bytes()))
+            }
+            6 if good.chars().all(|c| (c as u32) <= 0xff) && good.chars().any(|c| (c as u32) >= 0x80) && t::chance(2, 3) => {
+                // the configured pair in another charset (ISO-8859-1, one byte per character): not UTF-8, not the base64 of
+                // `user:password` as configured
+                let raw: Vec<u8> = good.chars().map(|c| c as u32 as u8).collect();
+                ("latin1-of-the-pair", Some(format!("Basic {}", STANDARD.encode(&raw)).into_bytes()))
             }
             6 => {
                 // base64 of bytes that are not UTF-8: invalid byte first / middle / last
